@@ -36,10 +36,11 @@ pub const OPS: [&str; 6] = ["", ">=", "<<", "<=", "=", ">>"];
 pub const VERS: [&str; 3] = ["1", "1.0-1~rc1", "2:1.0"];
 pub const ARCHS: [&[&str]; 6] = [&[], &["amd64"], &["amd64", "i386"], &["!amd64"], &["!amd64", "!i386"], &["linux-any", "any-i386"]];
 pub const PROFILES: [&[&[&str]]; 8] = [&[], &[&["x"]], &[&["!x"]], &[&["x", "y"]], &[&["!x", "y"], &["z"]], &[&["x", "!y"]], &[&["!x", "!y", "z"]], &[&["x"], &["y", "!z"], &["!w"]]];
-/// whitespace around ',' and '|' and at the field's start/end
-pub const SEP_WS: [&str; 6] = ["", " ", "  ", "\t", "\n ", " \n  "];
+/// whitespace around ',' and '|' and at the field's start/end (the bare line break is what a folded control field
+/// looks like once the value accessor has removed the indentation)
+pub const SEP_WS: [&str; 7] = ["", " ", "  ", "\t", "\n ", " \n  ", "\n"];
 /// same menu with the conventional single space first (after ',' and around '|')
-pub const SEP_WS1: [&str; 6] = [" ", "", "  ", "\t", "\n ", " \n  "];
+pub const SEP_WS1: [&str; 7] = [" ", "", "  ", "\t", "\n ", " \n  ", "\n"];
 /// whitespace between the parts of a relation
 pub const PART_WS: [&str; 4] = [" ", "", "  ", "\t"];
 /// whitespace between list items
